@@ -197,7 +197,7 @@ partial def loop (h : IO.FS.Stream) (out : IO.FS.Stream) (m : Profile) : IO Unit
             else (events.splitOn ",").mapM (fun tok =>
               if tok == "i" then some Ev.interrupted
               else if tok.startsWith "d" then (tok.drop 1).toString.toNat?.map Ev.deliver
-              else if tok.startsWith "f" then (tok.drop 1).toString.toNat?.map (fun c =>
+              else if tok.startsWith "f" || tok.startsWith "F" then (tok.drop 1).toString.toNat?.map (fun c =>
                 Ev.fail (if c == 0 then .unexpectedEof else .other c))
               else none)
           match evs with
